@@ -197,7 +197,7 @@ def gen_case(draw, tier):
 	return {
 		'kind': 'tree', 'mode': mode, 'n': draw(st.integers(2, 9)), 'nanc': draw(st.sampled_from([1, 2, 2, 3])),
 		'seed': draw(st.integers(0, 2 ** 20)), 'dup_prob': draw(st.sampled_from([0.15, 0.0, 0.4])),
-		'spec': list(draw(st.sampled_from([(5, 'AT'), (6, 'AC'), (11, 'ATGAC'), (7, 'ATG'), (9, 'TA')]))),
+		'spec': list(draw(st.sampled_from([(5, 'AT'), (6, 'AC'), (11, 'ATGAC'), (7, 'ATG'), (9, 'TA'), (17, 'AT'), (24, 'TA'), (32, 'AC'), (16, 'AT')]))),
 		'explicit': draw(st.booleans()),
 		'labels': draw(st.lists(LABEL, min_size=1, max_size=9)),
 		'exts': draw(st.lists(st.sampled_from(['.fasta', '.fa', '.fna', '.txt', '']), min_size=1, max_size=3)),
